@@ -33,7 +33,7 @@ def bounds(tier):
 def the_tree():
     return {
         'a.o': F(1), 'b.o': F(1), 'keep.o': F(1), 'main.c': F(1), 'README': F(1), 'a.old': F(1), 'xo': F(1), 'name': F(1),
-        'tmp1': F(1), 'tmp22': F(1), '.hidden.o': F(1), 'a!b.txt': F(1), 'c.txt': F(1),
+        'tmp1': F(1), 'tmp22': F(1), '.hidden.o': F(1), 'a!b.txt': F(1), 'c.txt': F(1), 'x\\y': F(1), 'a\\b.txt': F(1),
         'build': D({'out.o': F(1), 'gen.c': F(1), 'keep.o': F(1), 'deep': D({'x.o': F(1), 'name': F(1)})}),
         'src': D({'b.o': F(1), 'main.c': F(1), 'name': F(1), 'sub': D({'c.o': F(1), 'name': F(1), 'tmp1': F(1), 'tmp22': F(1)})}),
         'docs': D({'name': D({'inner': F(1)}), 'build': F(1)}),
@@ -49,21 +49,34 @@ HG_ATOMS = [('glob', 'name'), ('glob', '*.o'), ('glob', 'build'), ('glob', 'src/
             ('glob', 'build/'), ('glob', '*.o # object files'), ('regexp', r'\.c$ # sources'), ('glob', 'src/sub/  # a directory')]
 
 
+# docker reads a line as a path: blanks around the pattern and the `!`, `./`, doubled and dotted components and a byte order mark in front of the
+# first line do not count; a backslash in an entry name is a character like any other
+DOCKER_EXTRA = ['./main.c', 'src//sub', 'src/./sub', 'src/x/../sub', '  !keep.o', '  *.o  ', '! build/keep.o', '\ufeff*.o', 'x', '*.txt']
+HG_EXTRA = [('regexp', '(^|/)build$'), ('regexp', r'\.o$|^main'), ('regexp', '(?:^|/)name$'), ('re', r'\.o$'), ('rootglob', '*.o'), ('rootglob', 'build'), ('rootglob', 'src/*.o'),
+            ('regexp', 'glob:*.o'), ('glob', 're:^build/'), ('regexp', 'rootglob:name'), ('glob', 'relre:tmp[0-9]$'), ('@unknown', ''), ('relglob', 'tmp?')]
+
+
 def pattern_lists(tier, tool):
     L = 2 if tier == 'quick' else 3
     if tool == 'hg':
         for n in range(1, L + 1):
-            for combo in itertools.product(HG_ATOMS, repeat=n):
+            for combo in itertools.product(HG_ATOMS + HG_EXTRA, repeat=n):
                 if len(set(combo)) < n:
+                    continue
+                if n == 3 and sum(1 for c in combo if c in HG_EXTRA) > 1:
                     continue
                 yield list(combo)
         return
-    pool = ATOMS + NEGS
+    pool = ATOMS + NEGS + (DOCKER_EXTRA if tool == 'docker' else [])
     for n in range(1, L + 1):
         for combo in itertools.product(pool, repeat=n):
             if len(set(combo)) < n:
                 continue
-            if all(c.startswith('!') or c in ('', '# comment') for c in combo) and n > 1:
+            if all(c.strip().startswith('!') or c in ('', '# comment') for c in combo) and n > 1:
+                continue
+            if any(c.startswith('\ufeff') for c in combo[1:]):
+                continue        # the mark counts in front of the first line only
+            if n == 3 and sum(1 for c in combo if c in DOCKER_EXTRA) > 1:
                 continue
             yield list(combo)
 
@@ -73,6 +86,9 @@ def render(tool, lst):
         return '\n'.join(lst) + '\n'
     out, cur = [], 'regexp'
     for syn, pat in lst:
+        if syn == '@unknown':       # an unknown syntax name is reported and changes nothing
+            out.append('syntax: bogus')
+            continue
         if syn != cur:
             out.append('syntax: ' + syn)
             cur = syn
@@ -109,14 +125,23 @@ def prefixes(rel):
 
 
 def docker_ignored(lst, rel):
+    import posixpath
     verdict = False
-    for line in lst:
+    for i, line in enumerate(lst):
+        if i == 0:
+            line = line.lstrip('\ufeff')
+        if line.startswith('#'):
+            continue
         p = line.strip()
-        if not p or p.startswith('#'):
+        if not p:
             continue
         neg = p.startswith('!')
         if neg:
-            p = p[1:]
+            p = p[1:].strip()
+        if p:
+            p = posixpath.normpath(p)
+            if p.startswith('//'):
+                p = p[1:]
         p = p.strip('/')
         rx = re.compile(glob_re(p) + r'\Z')
         if any(rx.match(x) for x in prefixes(rel)):
@@ -125,14 +150,24 @@ def docker_ignored(lst, rel):
 
 
 def hg_ignored(lst, rel):
+    kinds = {'regexp': 'regexp', 're': 'regexp', 'relre': 'regexp', 'glob': 'glob', 'relglob': 'glob', 'rootglob': 'rootglob'}
     for syn, pat in lst:
+        if syn == '@unknown':
+            continue
+        syn = kinds[syn]
         pat = re.sub(r'(?<!\\)#.*$', '', pat).rstrip()      # the rest of a line after # is a comment
         if not pat:
             continue
-        if syn == 'glob':
+        m = re.match(r'(regexp|relre|re|relglob|rootglob|glob):(.*)$', pat)       # a line may name its own syntax
+        if m:
+            syn, pat = kinds[m.group(1)], m.group(2)
+        if syn in ('glob', 'rootglob'):
             pat = pat.rstrip('/')
         for x in prefixes(rel):
-            if syn == 'glob':
+            if syn == 'rootglob':
+                if re.match(glob_re(pat, single='.') + '$', x):
+                    return True
+            elif syn == 'glob':
                 if re.match('(?:|.*/)' + glob_re(pat, single='.') + '(?:/|$)', x + ('/' if False else '')):
                     return True
             else:
@@ -290,7 +325,8 @@ def eval_group(env, group, tier):
                 case = {'tool': tool, 'list': lst, 'cfg': list(cfg)}
                 nign = len([e for e in inscope if e in ign])
                 r = {'case': case, 'layer': '%s:%s:%s' % (tool, spelling, how), 'nt': active and 0 < nign < len(inscope), 'trans': len(inscope)}
-                if o.timeout or o.panicked or o.rc != 0 or o.err:
+                warned = tool == 'hg' and any(a[0] == '@unknown' for a in lst) and active and b'syntax' in o.err      # an unknown syntax name is reported
+                if o.timeout or o.panicked or o.rc != 0 or (o.err and not warned):
                     r.update(status='viol', cls='%s:status' % tool, detail=dict(o.brief(), file=render(tool, lst), frm=frm), sig=('err',))
                 elif got != exp:
                     wrongly_hidden = [e for e in exp if e not in got]
